@@ -8,7 +8,7 @@ translator reads the *shape* of those sites from the current source (ast only) a
 A site that has neither the as-found nor the repaired shape raises ExtractError.
 """
 import ast
-from extract import ExtractError
+from extract import ExtractError, lean_string
 
 
 def _norm(node):
@@ -67,6 +67,198 @@ def _choose(val, table, what):
     if val not in table:
         raise ExtractError(f'{what}: unrecognised shape {val!r}')
     return table[val]
+
+
+# --------------------------------------------------------------------------- writer audit
+# Every place that can change what the indexes must say (an entity's keyvalues, the entity list, the
+# worldspawn binding) or the indexes themselves has to be one of the sites the model covers.  Anything
+# else is listed in `unauditedWriters` (obligation: empty), so a newly added bypass is flagged even
+# before a history finds it.
+
+DICT_MUTATORS = {'pop', 'popitem', 'clear', 'update', 'setdefault', '__setitem__', '__delitem__', '__ior__'}
+LIST_MUTATORS = {'append', 'extend', 'remove', 'insert', 'pop', 'clear', 'sort', 'reverse', '__delitem__',
+                 '__setitem__', '__iadd__', '__imul__'}
+SET_MUTATORS = {'add', 'discard', 'remove', 'pop', 'clear', 'update', 'difference_update', 'intersection_update',
+                'symmetric_difference_update', '__ior__', '__iand__', '__isub__', '__ixor__', 'setdefault',
+                '__setitem__', '__delitem__', 'popitem'}
+MIXIN_MUTATORS = {'setdefault', 'update', 'popitem', '__ior__', '__or__', '__ror__'}
+
+KEYS_WRITERS = {   # function -> allowed normalised statements that store into / delete from _keys
+    'Entity.__init__': {'self._keys=_KeyDict()'},
+    'Entity.__setitem__': {'self._keys[k]=str_val', 'self._keys[key]=str_val',
+                           'self._keys[key]=str(self.map.node_id.get_id(node_id))'},
+    'Entity.__delitem__': {'val=self._keys.pop(k)'},
+    'Entity.pop': {'returnself._keys.pop(k)'},                 # as-found shape (flag popViaDel)
+    'Entity.clear': {'self._keys.clear()', "self._keys['classname']='info_null'"},
+}
+KEYS_ESCAPES = {'Entity.keys': {'returnself._keys'}, 'Entity.copy': {'keys=self._keys'}}
+INDEX_WRITERS = {'VMF.__init__', 'VMF.add_ent', 'VMF.add_ents', 'VMF.remove_ent', 'VMF.parse',
+                 'Entity.__setitem__', 'Entity.__delitem__', '_remove_copyset'}
+ENTITIES_WRITERS = {'VMF.__init__': {'self.entities=[]'}, 'VMF.add_ent': {'self.entities.append(item)'},
+                    'VMF.add_ents': {'self.entities.extend(ents)'}, 'VMF.remove_ent': {'self.entities.remove(item)'}}
+SPAWN_WRITERS = {'VMF.__init__', 'VMF.parse'}
+
+
+def _functions(tree):
+    """(qualified name, FunctionDef) for every function/method, nested ones under their parent's name."""
+    out = []
+
+    def walk(node, prefix):
+        for n in ast.iter_child_nodes(node):
+            if isinstance(n, (ast.FunctionDef, ast.AsyncFunctionDef)):
+                out.append((prefix + n.name, n))
+                walk(n, prefix + n.name + '.')
+            elif isinstance(n, ast.ClassDef):
+                walk(n, prefix + n.name + '.')
+            else:
+                walk(n, prefix)
+    walk(tree, '')
+    return out
+
+
+def _own_nodes(fn):
+    """nodes of fn's body excluding nested function/class definitions, each with its parent chain."""
+    stack = [(c, [fn]) for c in ast.iter_child_nodes(fn)]
+    while stack:
+        n, parents = stack.pop()
+        if isinstance(n, (ast.FunctionDef, ast.AsyncFunctionDef, ast.ClassDef)):
+            continue
+        yield n, parents
+        for c in ast.iter_child_nodes(n):
+            stack.append((c, parents + [n]))
+
+
+def _stmt_of(parents, node):
+    for p in reversed(parents + [node]):
+        if isinstance(p, (ast.Assign, ast.AugAssign, ast.AnnAssign, ast.Delete, ast.Expr, ast.Return)):
+            return p
+    return node
+
+
+def _is_attr(n, name):
+    return isinstance(n, ast.Attribute) and n.attr == name
+
+
+def _audit_module(tree, modname, full):
+    """full=True for vmf.py (allow-lists apply); other modules may only read."""
+    bad = []
+    scopes = _functions(tree) + [('<module>', tree)]
+    for c in ast.walk(tree):
+        if isinstance(c, ast.ClassDef):
+            scopes.append((c.name + '.<class body>', c))
+    for qual, fn in scopes:
+        for n, parents in _own_nodes(fn):
+            par = parents[-1]
+            # ---- Entity._keys
+            if _is_attr(n, '_keys'):
+                stmt = _norm(_stmt_of(parents, n))
+                write = False
+                if isinstance(n.ctx, (ast.Store, ast.Del)):
+                    write = True
+                elif isinstance(par, ast.Subscript) and par.value is n and isinstance(par.ctx, (ast.Store, ast.Del)):
+                    write = True
+                elif isinstance(par, ast.Attribute) and par.value is n and par.attr in DICT_MUTATORS:
+                    write = True
+                elif isinstance(par, ast.AugAssign) and par.target is n:
+                    write = True
+                if write:
+                    if not (full and stmt in KEYS_WRITERS.get(qual, ())):
+                        bad.append(f'{modname}:{qual} writes _keys: {stmt}')
+                    continue
+                read_ok = (
+                    (isinstance(par, ast.Subscript) and par.value is n and isinstance(par.ctx, ast.Load))
+                    or (isinstance(par, ast.Attribute) and par.value is n and par.attr in ('get', 'items', 'keys', 'values'))
+                    or (isinstance(par, ast.For) and par.iter is n)
+                    or (isinstance(par, ast.comprehension) and par.iter is n)
+                    or (isinstance(par, ast.Call) and isinstance(par.func, ast.Name) and par.func.id in ('len', 'iter', 'sorted', 'list')
+                        and n in par.args)
+                    or (isinstance(par, ast.Compare) and n in par.comparators))
+                if read_ok:
+                    continue
+                esc = _norm(par) if isinstance(par, (ast.Return, ast.keyword)) else stmt
+                if not (full and esc in KEYS_ESCAPES.get(qual, ())):
+                    bad.append(f'{modname}:{qual} lets _keys escape: {esc}')
+                continue
+            # ---- by_class / by_target
+            if isinstance(n, ast.Attribute) and n.attr in ('by_class', 'by_target'):
+                write = False
+                if isinstance(n.ctx, (ast.Store, ast.Del)):
+                    write = True
+                elif isinstance(par, ast.Subscript) and par.value is n:
+                    gp = parents[-2] if len(parents) >= 2 else None
+                    if isinstance(par.ctx, (ast.Store, ast.Del)):
+                        write = True
+                    elif isinstance(gp, ast.Attribute) and gp.value is par and gp.attr in SET_MUTATORS:
+                        write = True
+                    elif isinstance(gp, ast.AugAssign) and gp.target is par:
+                        write = True
+                elif isinstance(par, ast.Attribute) and par.value is n and par.attr in SET_MUTATORS:
+                    write = True
+                elif isinstance(par, ast.Call) and isinstance(par.func, ast.Name) and par.func.id == '_remove_copyset':
+                    write = True
+                elif isinstance(par, ast.AugAssign) and par.target is n:
+                    write = True
+                if write and not (full and qual in INDEX_WRITERS):
+                    bad.append(f'{modname}:{qual} writes {n.attr}: {_norm(_stmt_of(parents, n))}')
+                continue
+            if not full:
+                continue
+            # ---- VMF.entities (vmf.py only: other modules have unrelated `.entities`)
+            if _is_attr(n, 'entities') and qual.split('.')[0] in ('VMF', 'Entity'):
+                write = False
+                if isinstance(n.ctx, (ast.Store, ast.Del)):
+                    write = True
+                elif isinstance(par, ast.Subscript) and par.value is n and isinstance(par.ctx, (ast.Store, ast.Del)):
+                    write = True
+                elif isinstance(par, ast.Attribute) and par.value is n and par.attr in LIST_MUTATORS:
+                    write = True
+                elif isinstance(par, ast.AugAssign) and par.target is n:
+                    write = True
+                if write:
+                    stmt = _norm(_stmt_of(parents, n))
+                    if stmt not in ENTITIES_WRITERS.get(qual, ()):
+                        bad.append(f'{modname}:{qual} writes entities: {stmt}')
+                continue
+            # ---- VMF.spawn rebinding, Entity.map rebinding
+            if _is_attr(n, 'spawn') and isinstance(n.ctx, (ast.Store, ast.Del)) and qual not in SPAWN_WRITERS:
+                bad.append(f'{modname}:{qual} rebinds spawn: {_norm(_stmt_of(parents, n))}')
+            if _is_attr(n, 'map') and isinstance(n.ctx, (ast.Store, ast.Del)) and qual.startswith('Entity.') \
+                    and qual != 'Entity.__init__':
+                bad.append(f'{modname}:{qual} rebinds Entity.map: {_norm(_stmt_of(parents, n))}')
+    return bad
+
+
+def _audit_writers(repo, vmf_tree):
+    bad = _audit_module(vmf_tree, 'vmf.py', True)
+    classes = {n.name: n for n in vmf_tree.body if isinstance(n, ast.ClassDef)}
+    # MutableMapping mutators the model treats as inherited must not be overridden
+    for cname in ('Entity', '_KeyDict'):
+        for n in classes[cname].body if cname in classes else []:
+            names = []
+            if isinstance(n, (ast.FunctionDef, ast.AsyncFunctionDef)):
+                names = [n.name]
+            elif isinstance(n, ast.Assign):
+                names = [t.id for t in n.targets if isinstance(t, ast.Name)]
+            for nm in names:
+                if nm in MIXIN_MUTATORS or (cname == '_KeyDict' and nm != '__call__'):
+                    bad.append(f'vmf.py:{cname}.{nm} overrides a mapping mutator the model takes as inherited')
+    # aliases of audited methods (clear_keys = clear) are fine; any other class-level alias of a mutator is not
+    for n in classes['Entity'].body:
+        if isinstance(n, ast.Assign) and isinstance(n.value, ast.Name) and n.value.id in (
+                '__setitem__', '__delitem__', 'pop', 'clear') and _norm(n) != 'clear_keys=clear':
+            bad.append(f'vmf.py:Entity alias {_norm(n)}')
+    for path in sorted((repo / 'src/srctools').rglob('*.py')):
+        if path.name == 'vmf.py':
+            continue
+        text = path.read_text(encoding='utf-8')
+        if '_keys' not in text and 'by_class' not in text and 'by_target' not in text and '_remove_copyset' not in text:
+            continue
+        try:
+            t = ast.parse(text)
+        except SyntaxError as exc:
+            raise ExtractError(f'{path.name}: {exc}')
+        bad += _audit_module(t, path.name, False)
+    return sorted(set(bad))
 
 
 IN_MAP = 'selfinself.map.entities'
@@ -209,6 +401,8 @@ def generate(repo):
     if 'frozenset(self)' not in cs or 'yieldfrom(self-cur_items)' not in cs:
         raise ExtractError('CopySet.__iter__: unrecognised')
 
+    unaudited = _audit_writers(repo, tree)
+
     flags = [a, rm_t, d, e, f, g, h, i, bool(j)]
     names = ['clsRemoveFold', 'nameKeyNorm', 'spawnNameIdx', 'delKeyNorm', 'delLooseGuard', 'popViaDel',
              'clearKeepsClass', 'parseDropsPlaceholder', 'removeSpawnGuard']
@@ -220,4 +414,8 @@ def generate(repo):
         "namespace Gen.C07\n\n"
         "def current : _root_.C07.Fix :=\n"
         f"  {{ {body} }}\n\n"
+        "/-- writers of `Entity._keys`, `by_class`/`by_target`, `VMF.entities`, `VMF.spawn` and overrides of\n"
+        "MutableMapping mutators that are NOT among the audited sites the model covers (must be empty). -/\n"
+        "def unauditedWriters : List String :=\n"
+        f"  [{', '.join(lean_string(u) for u in unaudited)}]\n\n"
         "end Gen.C07\n")
